@@ -53,10 +53,17 @@ def labels(n, m, scheme, rng=None):
         pool_p = ['1', '0', '10', '2', '01', '210', '11', '20', '3', '123', '00', '31']
         return ([pool_o[i] if i < len(pool_o) else f'o{i}' for i in range(n)],
                 [pool_p[j] if j < len(pool_p) else f'p{j}' for j in range(m)])
+    if scheme == 'jsonish':
+        # labels that look like pieces of serialised documents (interval-scale names, JSON/python fragments)
+        pool_o = ['age [ 18, 64 ]', 'kids [ 0 ]', '{ "k" : [ 3 ] }', 'x [ 1,  2 ]', 'null', 'true', '"quoted"',
+                  'back\\slash', '\\u0041', "('a', 'b')", '[ ]', '# no comment']
+        pool_p = ['size [ 1, 2, 3 ]', 'n [ 7 ]', '{ }', ': ', 'None', 'false', "'single'", '\\n', '%s', '{0}', '[ 10,20 ]', '0x1F']
+        return ([pool_o[i] if i < len(pool_o) else f'o [ {i} ]' for i in range(n)],
+                [pool_p[j] if j < len(pool_p) else f'p [ {j} ]' for j in range(m)])
     raise ValueError(scheme)
 
 
-SCHEMES = ['rev', 'shuffled', 'shared', 'unicode', 'plain', 'confusable', 'composite']
+SCHEMES = ['rev', 'shuffled', 'shared', 'unicode', 'plain', 'confusable', 'composite', 'jsonish']
 
 
 def case(fam, rows, m, scheme, rng=None, n=None):
